@@ -7,6 +7,7 @@
     E <lineNo> <reason>            (line could not be parsed)
 -/
 import Fuzion.Driver.Oracles
+import Fuzion.Driver.Print
 import Fuzion.Model.Proto
 namespace Fuzion.Run
 open Fuzion Fuzion.Codec Fuzion.Cmp Fuzion.Orc
@@ -504,7 +505,9 @@ def processLine (st : DState) (lineNo : Nat) (line : String) : DState × String 
   | "NOTE" :: rest => (st, s!"A {lineNo} NOTE {" ".intercalate (rest.take 8)}")
   | "INIT" :: rest =>
     match world rest with
-    | some ((w, idx), _) =>
+    | some ((w, idx), remaining) =>
+      -- echo: what was parsed prints back to exactly the tokens consumed
+      if pWorld w idx != rest.take (rest.length - remaining.length) then (st, s!"E {lineNo} codec-echo INIT") else
       let orc := (if checkC01 w then [] else ["o01"]) ++ (if checkIds w.mkt then [] else ["o09"]) ++
                  (if checkWF w then [] else ["o12"]) ++
                  (if idx && w.mkt.registry == some w.regAddr then [] else ["oIdx"])
@@ -549,6 +552,10 @@ def processLine (st : DState) (lineNo : Nat) (line : String) : DState × String 
         pure { line := kind, fault := fault, kind := k, op := o, io := io, pw := pw, idxOk := idx, same := same }
       match p rest with
       | some (si, []) =>
+        -- echo: operation, outcome and post-state print back to exactly the line's tokens
+        let echo := (match si.fault with | some k => [Nat.repr k] | none => []) ++ pOp si.op ++ pOutcome si.io ++
+          (if si.same then ["="] else pWorld si.pw si.idxOk)
+        if echo != rest || opKind si.op != si.kind then (st, s!"E {lineNo} codec-echo {kind}") else
         let (st', ans) := processStep st si
         (st', s!"A {lineNo} {ans}")
       | some (_, _ :: _) => (st, s!"E {lineNo} trailing-tokens")
